@@ -14,7 +14,8 @@
      oracle runs the real code on every point and finding_class_C02 carries the docstring-level classes;
    - ast.unparse followed by ast.parse is the identity on the emitted tree (R1): run per case by the oracle;
    - outside guard_C02_ast: code-quoted defaults and return defaults (emitted through the recorded parse table),
-     **kwargs-style names, emit_call = True, carried bodies, types outside TyExpr's canonical fragment;
+     emit_call = True, carried bodies, types outside the canonical fragment of TyExpr, the type texts dict and
+     complex, str defaults wrapped in quote marks or spelled None (names ending in kwargs are inside);
    - that finding_class_C02 is complete: it is validated by the oracle; the proof found one failure it does not
      name (C02_negative_zero_unclassified). *)
 From Coq Require Import List Bool.
